@@ -290,9 +290,6 @@ func nbnsScenarios(c *vf.Ctx, B int) []*scenario {
 			// A: two/three concurrent datagram clients
 			for _, nc := range []int{2, 3} {
 				nc := nc
-				if nc == 3 && c.Quick() {
-					continue
-				}
 				out = append(out, &scenario{name: fmt.Sprintf("nbns-%s-%dclients", im.name, nc), keys: respKeys, bound: B, body: func(x *exec) {
 					s, t := im.mk()
 					seed(t)
@@ -494,6 +491,38 @@ func nbnsScenarios(c *vf.Ctx, B int) []*scenario {
 				}
 				conn.Close()
 			}})
+			out = append(out, &scenario{name: "nbns-TCPServer-stop-with-two-idle-connections", keys: respKeys, bound: B, body: func(x *exec) {
+				s, t := im.mk()
+				seed(t)
+				if err := s.Start(); err != nil {
+					panic("harness: start: " + err.Error())
+				}
+				var conns []net.Conn
+				for i := 0; i < 2; i++ {
+					conn, err := vnet.Dial("tcp", "127.0.0.1:137")
+					if err != nil {
+						panic("harness: dial: " + err.Error())
+					}
+					conns = append(conns, conn)
+					rq := mkQuery(uint16(0x1111*(i+1)), 0, []string{"NX", "NY"}[i])
+					conn.Write(append(binary.BigEndian.AppendUint16(nil, uint16(len(rq))), rq...))
+					conn.SetReadDeadline(vtime.Now().Add(time.Second))
+					var l [2]byte
+					if _, err := io.ReadFull(conn, l[:]); err == nil {
+						body := make([]byte, binary.BigEndian.Uint16(l[:]))
+						if _, err := io.ReadFull(conn, body); err == nil {
+							checkQueryResp(x, fmt.Sprintf("idle-conn%d", i), uint16(0x1111*(i+1)), []string{"NX", "NY"}[i], []net.IP{ipX, ipY}[i], []resp{parseResp(body)}, true)
+						}
+					} else {
+						x.fail("exactly-one-response-per-request", "no response on connection %d: %v", i, err)
+					}
+				}
+				// both connections stay open and idle while the server is stopped
+				stopAndDrain(x, s)
+				for _, conn := range conns {
+					conn.Close()
+				}
+			}})
 			out = append(out, &scenario{name: "nbns-TCPServer-stop-race", keys: respKeys, bound: B, body: func(x *exec) {
 				s, t := im.mk()
 				seed(t)
@@ -624,9 +653,9 @@ func classifyOpcode(x *exec, im impl, opc int) string {
 func challengeScenarios(c *vf.Ctx, B int) []*scenario {
 	var out []*scenario
 	owner := net.IP{127, 0, 0, 9}
-	for _, mode := range []string{"right-id-owner", "wrong-id-only", "wrong-id-then-right", "name-error", "other-address", "silent"} {
+	for _, mode := range []string{"right-id-owner", "wrong-id-only", "wrong-id-then-right", "foreign-name-error-then-right", "name-error", "other-address", "silent"} {
 		mode := mode
-		want := map[string]bool{"right-id-owner": true, "wrong-id-then-right": true}[mode]
+		want := map[string]bool{"right-id-owner": true, "wrong-id-then-right": true, "foreign-name-error-then-right": true}[mode]
 		out = append(out, &scenario{name: "nbns-challenge/" + mode, keys: []string{"challenge-accepts-only-own-id-and-owner", "no-goroutine-left-after-stop"}, bound: B, maxSteps: 3000, body: func(x *exec) {
 			t := nbtns.NewNetBIOSNameServer(false)
 			ch := nbtns.NewNameChallenger(t, nbtns.NewPacketHandler(t))
@@ -667,6 +696,9 @@ func challengeScenarios(c *vf.Ctx, B int) []*scenario {
 						reply(id^0x0101, 0, owner)
 					case "wrong-id-then-right":
 						reply(id^0x0101, 0, net.IP{10, 6, 6, 6})
+						reply(id, 0, owner)
+					case "foreign-name-error-then-right":
+						reply(id^0x0101, nbtns.RcodeNameError, nil) // a negative answer that belongs to ANOTHER transaction
 						reply(id, 0, owner)
 					case "name-error":
 						reply(id, nbtns.RcodeNameError, nil)
